@@ -300,7 +300,7 @@ def run_case(ctx, case):
 
 def run(ctx):
     rng = ctx.rng(1)
-    nrep = 60 if ctx.tier == "quick" else 600
+    nrep = 60 if ctx.tier == "quick" else 3000
     try:
         for it0 in range(nrep):
             it = it0 + ctx.shard
